@@ -7,6 +7,8 @@ CONSTANTS
   OrderedMerge = TRUE
   ReadsLeak = FALSE
   OrderedScan = TRUE
+  TableCalls = FALSE
+  Registers = FALSE
   Aliases = TRUE
 INVARIANT Functional
 CHECK_DEADLOCK FALSE
